@@ -12,7 +12,7 @@ PROPERTY = 'C19'
 RULE = ('accepted lines of the C02 generator (Intel syntax) x presentation-only rewrites: register case (incl. segment and st(i)), case of size keywords / PTR / OFFSET FLAT, '
         'spacing (no space after commas, doubled spaces, tabs, spaces inside brackets), decimal vs 0x / 0X numbers, negative vs two\'s-complement unsigned number at the operand '
         'width (8/16/32) and for displacements, [r+d] vs d[r] vs [d+r], [b+i*s] vs [i*s+b] (only when roles are unambiguous: scale != 1), optional % register prefix, '
-        'st vs st(0), and Intel <-> AT&T transliteration (through the reference printer, and directly written pairs for ALU/mov/test/push/imul immediates at every width boundary incl. negative values, register and memory destinations of 8/16/32 bits). A case = (rewrite, base line, variant); non-trivial = the base line has >= 1 candidate and the rewrite changed the text.')
+        'st vs st(0), and Intel <-> AT&T transliteration (through the reference printer, and directly written pairs, whose AT&T side is itself respelled: number base 0x/0X, spacing, register case; for ALU/mov/test/push/imul immediates at every width boundary incl. negative values, register and memory destinations of 8/16/32 bits). A case = (rewrite, base line, variant); non-trivial = the base line has >= 1 candidate and the rewrite changed the text.')
 ASSUMPTIONS = ['rewrites that change base/index roles ([eax+ebx] vs [ebx+eax]) are not applied (the statement exempts them)',
                'the AT&T transliteration is the reference\'s (GNU as + objdump -M att), not miasmX\'s']
 
@@ -174,6 +174,24 @@ def direct_pairs():
     return out
 
 
+def att_rewrites(line):
+    """Presentation-only respellings of an AT&T line: number base (0x / 0X / decimal), spacing, register case."""
+    mn, _, ops = line.partition(' ')
+    num = re.compile(r'(?<![\w%])(\d+)(?![\w(]*x)')
+    def hexify(fmt):
+        return re.sub(r'(?<![\w%.])(\d+)\b', lambda m: fmt % int(m.group(1)), ops)
+    t = hexify('0x%x')
+    if t != ops:
+        yield 'number-base', '%s %s' % (mn, t)
+        yield 'number-base', '%s %s' % (mn, hexify('0X%X'))
+    yield 'spacing', '%s %s' % (mn, ops.replace(', ', ','))
+    yield 'spacing', '%s   %s' % (mn, ops.replace(', ', ' ,  '))
+    yield 'spacing', '%s\t%s' % (mn, ops)
+    t = re.sub(r'%([a-z]+)', lambda m: '%' + m.group(1).upper(), ops)
+    if t != ops:
+        yield 'register-case', '%s %s' % (mn, t)
+
+
 def run_direct(sh, pairs):
     from miasmx.arch.ia32_arch import x86mnemo
     for li, la, mn, shape, v in pairs:
@@ -193,6 +211,20 @@ def run_direct(sh, pairs):
             sh.violation(key + '/intel-side-empty', 'AT&T %r has %d candidates but its Intel spelling %r has none (%s)' % (la, len(b), li, erra or 'empty list'), wit)
         elif a != b:
             sh.violation(key + '/sets-differ', 'Intel %r -> %s but AT&T %r -> %s' % (li, sorted(x.hex() for x in a)[:4], la, sorted(x.hex() for x in b)[:4]), wit)
+        # presentation-only rewrites of the AT&T line itself
+        if b:
+            for kind, var in att_rewrites(la):
+                if var == la:
+                    continue
+                sh.case(('att-rewrite', kind, la, var), True, cls='att-%s/%s' % (kind, shape))
+                got, err = asm_set(x86mnemo.asm_att, var)
+                w2 = {'rewrite': 'att-' + kind, 'line': la, 'variant': var}
+                k2 = 'att-%s/%s' % (kind, shape)
+                if got is None:
+                    sh.violation(k2 + '/raises:%s' % err, 'AT&T %r has %d candidates but its respelling %r is rejected (%s)' % (la, len(b), var, err), w2)
+                elif got != b:
+                    sh.violation(k2 + ('/one-side-empty' if not got else '/sets-differ'), 'AT&T %r -> %s but %r -> %s' % (
+                        la, sorted(x.hex() for x in b)[:4], var, sorted(x.hex() for x in got)[:4]), w2)
 
 
 NPARTS = 96
